@@ -5,6 +5,7 @@ import RsddModel.Driver.WmcStream
 import RsddModel.Driver.SddStream
 import RsddModel.Driver.OrdStream
 import RsddModel.Driver.OptStream
+import RsddModel.Driver.UpStream
 /-!
 # Line-protocol driver
 
@@ -28,6 +29,7 @@ def judge (line : String) : String :=
     | "sdd" => checkSddLine kvs rhs
     | "ord" => checkOrdLine kvs rhs
     | "opt" => checkOptLine kvs rhs
+    | "up" => checkUpLine kvs rhs
     | _ => s!"FAIL PARSE unknown stream {stream}"
 
 partial def loop (h : IO.FS.Stream) : IO Unit := do
